@@ -291,3 +291,58 @@ package controller
 //@   ensures [C11] dry(c, opts.nodeGroup) ==> Jlen == old(Jlen)
 //@   ensures forall k :: old(Jlen) <= k && k < Jlen ==> Jkind[k] == K_UPDATE && namedIn(Jname[k], opts.untaintedNodes)
 //@   ensures err == nil ==> 0 <= n && n <= opts.nodesDelta
+
+// ---------------------------------------------------------------- scale_down.go: reaping
+
+//@ assume func github.com/stephanos/clock.Now() (t)
+//@   modifies clock
+//@   ensures clock >= old(clock) && t == clock
+//@ assume func (time.Time).Sub(t, u) (d)
+//@   pure
+//@   ensures d == sat64(t - u)
+
+// annotated(n): non-empty atlassian.com/no-delete annotation
+//@ spec annotated(n *v1.Node) bool = has(n.Annotations, NodeEscalatorIgnoreAnnotation) && n.Annotations[NodeEscalatorIgnoreAnnotation] != ""
+//@ func safeFromDeletion(node) (why, ok)
+//@   requires node != nil
+//@   ensures [C10] ok <==> annotated(node)
+//@ loop #0
+//@   invariant #seen[NodeEscalatorIgnoreAnnotation] ==> node.Annotations[NodeEscalatorIgnoreAnnotation] == ""
+
+//@ spec optsOf(g *NodeGroupState) *NodeGroupOptions = subref(g, "Opts")
+//@ spec soft(g *NodeGroupState) int = durOf(g.Opts.SoftDeleteGracePeriod)
+//@ spec hard(g *NodeGroupState) int = durOf(g.Opts.HardDeleteGracePeriod)
+
+// taintAge(n, i, c): how long ago (at clock c) the time recorded in taint i of n was
+//@ spec taintAge(n *v1.Node, i int, c int) int = sat64(c - k8s.parseIntVal(n.Spec.Taints[i].Value) * 1000000000)
+// reapable(n, g, c): the escalator-taint rule of C01/C10 at clock reading c, with emptiness judged on the group's node-info map
+//@ spec reapable(n *v1.Node, g *NodeGroupState, c int) bool = !annotated(n) && (exists i :: k8s.keyAt(n, k8s.ToBeRemovedByAutoscalerKey, i) && k8s.taintTimeOK(n.Spec.Taints[i].Value) && taintAge(n, i, c) > soft(g) && (k8s.nodeEmptyIn(n, g.NodeInfoMap) || taintAge(n, i, c) > hard(g)))
+
+// TryDeleteNodes: cloud first (one C_DELNODE per node), Kubernetes only if the cloud accepted all.
+//@ ghost Jerr [int]iface
+//@ func TryDeleteNodes(c, opts, toBeDeleted) (n, err)
+//@   requires c != nil && opts.nodeGroup != nil && c.Client != nil && c.cloudProvider != nil && nodesOK(toBeDeleted) && k8s.infoMapOK(opts.nodeGroup.NodeInfoMap)
+//@   modifies Jlen, Jkind, Jname, Jnode, Jok
+//@   ensures Jlen >= old(Jlen) && jprefix(old(Jlen))
+//@   ensures len(toBeDeleted) == 0 ==> Jlen == old(Jlen) && err == nil
+//@   ensures Jlen <= old(Jlen) + 2 * len(toBeDeleted) && (Jlen == old(Jlen) || Jlen >= old(Jlen) + len(toBeDeleted))
+//@   ensures forall k :: old(Jlen) <= k && k < old(Jlen) + len(toBeDeleted) && k < Jlen ==> Jkind[k] == C_DELNODE && Jnode[k] == toBeDeleted[k - old(Jlen)] && Jname[k] == toBeDeleted[k - old(Jlen)].Name
+//@   ensures forall k :: old(Jlen) + len(toBeDeleted) <= k && k < Jlen ==> Jkind[k] == K_DELETE && Jname[k] == toBeDeleted[k - old(Jlen) - len(toBeDeleted)].Name
+//@   ensures [C19] Jlen > old(Jlen) + len(toBeDeleted) ==> (forall j :: old(Jlen) <= j && j < old(Jlen) + len(toBeDeleted) ==> Jok[j])
+
+// TryRemoveTaintedNodes. C01/C10: whatever is handed to the cloud / deleted from Kubernetes is one of
+// the tainted nodes given, not annotated, with a readable taint time older than the soft grace period
+// and (empty or older than the hard grace period). C11: nothing in dry mode.
+//@ func (*Controller).TryRemoveTaintedNodes(c, opts) (n, err)
+//@   requires c != nil && opts.nodeGroup != nil && c.Client != nil && c.cloudProvider != nil && nodesOK(opts.taintedNodes)
+//@   requires k8s.infoMapOK(opts.nodeGroup.NodeInfoMap) && durCacheOK(optsOf(opts.nodeGroup))
+//@   modifies Jlen, Jkind, Jname, Jnode, Jok, clock, opts.nodeGroup.Opts.softDeleteGracePeriodDuration, opts.nodeGroup.Opts.hardDeleteGracePeriodDuration
+//@   ensures Jlen >= old(Jlen) && jprefix(old(Jlen)) && clock >= old(clock) && durCacheOK(optsOf(opts.nodeGroup))
+//@   ensures [C11] dry(c, opts.nodeGroup) ==> Jlen == old(Jlen)
+//@   ensures [C01,C09,C10,C12] forall k :: old(Jlen) <= k && k < Jlen ==> (Jkind[k] == C_DELNODE || Jkind[k] == K_DELETE) && (exists i :: 0 <= i && i < len(opts.taintedNodes) && opts.taintedNodes[i].Name == Jname[k] && reapable(opts.taintedNodes[i], opts.nodeGroup, clock))
+//@   ensures [C19] forall k :: old(Jlen) <= k && k < Jlen && Jkind[k] == K_DELETE ==> (forall j :: old(Jlen) <= j && j < k && Jkind[j] == C_DELNODE ==> Jok[j])
+//@ loop #0
+//@   modifies opts.nodeGroup.Opts.softDeleteGracePeriodDuration, opts.nodeGroup.Opts.hardDeleteGracePeriodDuration
+//@   invariant nodesOK(toBeDeleted) && (base(toBeDeleted) == nil || birth(base(toBeDeleted)) >= entry(now)) && Jlen == old(Jlen) && clock >= old(clock) && durCacheOK(optsOf(opts.nodeGroup))
+//@   invariant dry(c, opts.nodeGroup) ==> len(toBeDeleted) == 0
+//@   invariant forall j :: 0 <= j && j < len(toBeDeleted) ==> (exists i :: 0 <= i && i < len(opts.taintedNodes) && toBeDeleted[j] == opts.taintedNodes[i] && reapable(opts.taintedNodes[i], opts.nodeGroup, clock))
